@@ -1469,6 +1469,56 @@ func runClosure(c *core.Ctx) []core.Obligation {
 				}
 			}
 		}
+		// (d) a captured slice handed to append (or to an Append* function) as the destination: when
+		// it has spare capacity the bytes are written into the array every call shares
+		if !perCall {
+			for _, ci := range callsIn(fn) {
+				cc := ci.Common()
+				if len(cc.Args) == 0 {
+					continue
+				}
+				isAppend := false
+				if bi, ok := cc.Value.(*ssa.Builtin); ok && bi.Name() == "append" {
+					isAppend = true
+				}
+				if f := staticCallee(cc); f != nil && strings.HasPrefix(f.Name(), "Append") {
+					isAppend = true
+				}
+				if !isAppend {
+					continue
+				}
+				dst := cc.Args[0]
+				for {
+					sl, ok := dst.(*ssa.Slice)
+					if !ok {
+						break
+					}
+					if sl.Max != nil {
+						dst = nil // a three-index slice clamps the capacity
+						break
+					}
+					if h, isK := constInt(sl.High); sl.High != nil && isK && h == 0 {
+						// x[:0] of a captured slice is a write into it as well
+					}
+					dst = sl.X
+				}
+				if dst == nil {
+					continue
+				}
+				var fv *ssa.FreeVar
+				switch x := dst.(type) {
+				case *ssa.FreeVar:
+					fv = x
+				case *ssa.UnOp:
+					if x.Op == token.MUL {
+						fv, _ = x.X.(*ssa.FreeVar)
+					}
+				}
+				if fv != nil && isSliceType(derefType(fv.Type())) {
+					bads = append(bads, fmt.Sprintf("append with the captured slice %q as its destination at %s (its spare capacity is memory shared by every call)", fv.Name(), c.InstrPos(ci)))
+				}
+			}
+		}
 		// (c) a settable reflect.Value made by the constructor (reflect.New(t).Elem(), MakeSlice,
 		// MakeMap) and captured is scratch memory shared by every call: the closure must not
 		// set it or hand it to code that decodes into it
